@@ -2,6 +2,7 @@
 //!
 //!   conc <scenario> --mode shuttle|threads --seed S --cases N
 //!        [--replay FILE] [--replay-dir DIR] [--trace-out DIR] [--timeout-ms T] [--schedules K] [--reps R]
+//!        [--wide-schedules K] [--gen V]
 //!
 //! Scenarios: c16 c17 c18 c19 c24 c08 (both modes), c14 c19p c20 c21 c22 (`threads` only, DESIGN §2.5a).
 //! The mode is fixed by the build: `--features shuttle` ⇒ `shuttle`, otherwise `threads`.
@@ -90,6 +91,12 @@ struct Case {
 }
 
 impl Case {
+    /// A cyclic reader case with four or more threads (generator version 2, `CycFlavor::Wide`);
+    /// these get several schedules (shuttle) / repetitions (threads) per case, see `wide_schedules`.
+    fn is_wide(&self) -> bool {
+        matches!(&self.spec, Spec::Readers { rounds, count_execs: false } if rounds.iter().any(|r| r.plans.len() >= 4))
+    }
+
     fn describe(&self) -> String {
         let mut o = String::new();
         o.push_str("--- program\n");
@@ -146,8 +153,13 @@ fn gen_inputs(rng: &mut Rng, n: usize) -> Vec<u8> {
 }
 
 fn plans_acyclic(rng: &mut Rng, prog: &Program, min_len: usize, max_len: usize) -> Vec<Vec<usize>> {
+    plans_acyclic_t(rng, prog, 4, min_len, max_len)
+}
+
+/// 2..=`max_threads` threads
+fn plans_acyclic_t(rng: &mut Rng, prog: &Program, max_threads: usize, min_len: usize, max_len: usize) -> Vec<Vec<usize>> {
     let n = prog.nodes.len();
-    let t = 2 + rng.usize(3);
+    let t = 2 + rng.usize(max_threads - 1);
     (0..t)
         .map(|_| {
             let len = min_len + rng.usize(max_len - min_len + 1);
@@ -159,12 +171,17 @@ fn plans_acyclic(rng: &mut Rng, prog: &Program, min_len: usize, max_len: usize) 
 }
 
 fn plans_cyclic(rng: &mut Rng, prog: &Program, ins: &[u8], max_threads: usize, max_len: usize) -> Vec<Vec<usize>> {
+    let t = 2 + rng.usize(max_threads - 1);
+    plans_cyclic_n(rng, prog, ins, t, max_len)
+}
+
+/// `t` threads, each entering the cycle at a different member (as far as there are members).
+fn plans_cyclic_n(rng: &mut Rng, prog: &Program, ins: &[u8], t: usize, max_len: usize) -> Vec<Vec<usize>> {
     let n = prog.nodes.len();
     let mut members = cyclic_nodes(prog, ins);
     if members.is_empty() {
         members = (0..n).collect();
     }
-    let t = 2 + rng.usize(max_threads - 1);
     let start = rng.usize(members.len());
     (0..t)
         .map(|i| {
@@ -253,7 +270,7 @@ fn gen_case(scenario: &str, index: usize, seed: u64) -> Case {
         "c16" => {
             prog = gen_acyclic(rng, true);
             ins0 = gen_inputs(rng, prog.n_inputs);
-            let plans = plans_acyclic(rng, &prog, 2, 5);
+            let plans = plans_acyclic_t(rng, &prog, wide_acyclic_threads(), 2, 5);
             spec = Spec::Readers { rounds: vec![Round { writes: vec![], plans, delay: 0 }], count_execs: true };
         }
         "c17" => {
@@ -263,7 +280,7 @@ fn gen_case(scenario: &str, index: usize, seed: u64) -> Case {
             let rounds = (0..n_rounds)
                 .map(|r| Round {
                     writes: if r == 0 { vec![] } else { gen_writes(rng, prog.n_inputs, true) },
-                    plans: plans_acyclic(rng, &prog, 2, 5),
+                    plans: plans_acyclic_t(rng, &prog, wide_acyclic_threads(), 2, 5),
                     delay: 0,
                 })
                 .collect();
@@ -277,12 +294,20 @@ fn gen_case(scenario: &str, index: usize, seed: u64) -> Case {
                 // against verified memos of the rest of its cycle returns its computed value
                 // instead of the fallback. Fallback components are therefore only generated for
                 // single-revision cases (unless `--fb-across-revisions`).
-                let n_rounds = if rng.chance(3, 10) { 2 } else { 1 };
-                let flavor = match rng.below(3) {
-                    0 => CycFlavor::Fix,
-                    _ if n_rounds > 1 && !fb_across_revisions() => CycFlavor::Fix,
-                    1 => CycFlavor::Fb,
-                    _ => CycFlavor::Mixed,
+                // generator version 2: half of the cases are WIDE — one large fixpoint component
+                // entered by 5-6 threads, a single round, short request lists (the generated
+                // 2-3 thread cases cannot reach histories that need a fourth thread)
+                let wide = gen_version() >= 2 && rng.chance(1, 2);
+                let n_rounds = if !wide && rng.chance(3, 10) { 2 } else { 1 };
+                let flavor = if wide {
+                    CycFlavor::Wide
+                } else {
+                    match rng.below(3) {
+                        0 => CycFlavor::Fix,
+                        _ if n_rounds > 1 && !fb_across_revisions() => CycFlavor::Fix,
+                        1 => CycFlavor::Fb,
+                        _ => CycFlavor::Mixed,
+                    }
                 };
                 prog = gen_cyclic(rng, flavor);
                 ins0 = gen_inputs(rng, prog.n_inputs);
@@ -295,13 +320,19 @@ fn gen_case(scenario: &str, index: usize, seed: u64) -> Case {
                             ins[*i] = *v;
                         }
                     }
-                    rounds.push(Round { writes, plans: plans_cyclic(rng, &prog, &ins, 3, 3), delay: 0 });
+                    let plans = if wide {
+                        let t = 5 + rng.usize(2);
+                        plans_cyclic_n(rng, &prog, &ins, t, 2)
+                    } else {
+                        plans_cyclic(rng, &prog, &ins, 3, 3)
+                    };
+                    rounds.push(Round { writes, plans, delay: 0 });
                 }
                 spec = Spec::Readers { rounds, count_execs: false };
             } else {
                 prog = gen_acyclic(rng, true);
                 ins0 = gen_inputs(rng, prog.n_inputs);
-                let plans = plans_acyclic(rng, &prog, 2, 5);
+                let plans = plans_acyclic_t(rng, &prog, wide_acyclic_threads(), 2, 5);
                 spec = Spec::Readers { rounds: vec![Round { writes: vec![], plans, delay: 0 }], count_execs: true };
             }
         }
@@ -1439,6 +1470,10 @@ struct Opts {
     trace_out: Option<String>,
     timeout_ms: u64,
     schedules: usize,
+    /// schedules per wide case (`Case::is_wide`) under shuttle; real threads repeat a wide case a
+    /// quarter as often (`--wide-schedules`; default 32 for runs of up to 1000 cases, 8 for longer
+    /// runs, so that small budgets still reach the rare interleavings)
+    wide_schedules: usize,
     reps: usize,
     seed: u64,
 }
@@ -1461,6 +1496,23 @@ const FAIL_ALWAYS: u8 = 2;
 static IN_CASE: AtomicBool = AtomicBool::new(false);
 
 static FB_ACROSS_REVISIONS: AtomicBool = AtomicBool::new(false);
+
+/// Version of the case generators. Replay files record it (`gen=`; absent = 1) and `--replay`
+/// regenerates the case with the recorded version, so older replays keep their programs.
+///   1: c18/c19 cyclic cases have 2-3 threads
+///   2: half of the c18/c19 cyclic cases are wide (`CycFlavor::Wide`, 5-6 threads); c16/c17 and the
+///      acyclic c19 cases have 2-5 threads
+const GEN_VERSION_CURRENT: u32 = 2;
+static GEN_VERSION: std::sync::atomic::AtomicU32 = std::sync::atomic::AtomicU32::new(GEN_VERSION_CURRENT);
+
+fn gen_version() -> u32 {
+    GEN_VERSION.load(Ordering::Relaxed)
+}
+
+/// thread bound of the acyclic reader scenarios (c16, c17, acyclic c19)
+fn wide_acyclic_threads() -> usize {
+    if gen_version() >= 2 { 5 } else { 4 }
+}
 
 /// `--fb-across-revisions`: also generate fallback components in multi-revision cases.
 fn fb_across_revisions() -> bool {
@@ -1568,6 +1620,14 @@ fn run_shuttle<S: shuttle::scheduler::Scheduler + 'static>(
 fn run_case(case: Arc<Case>, opts: &Opts) -> Vec<(Outcome, Option<String>)> {
     let mut rng = Rng::new(case.case_seed ^ 0x5ced);
     let sseed = rng.next();
+    // wide cases: histories that need a fourth thread also need long uninterrupted runs of single
+    // threads, which the uniform random scheduler and shallow PCT practically never produce:
+    // always PCT, 6-20 change points, several schedules per case
+    if case.is_wide() {
+        let depth = 6 + rng.usize(15);
+        let schedules = opts.schedules.max(opts.wide_schedules);
+        return run_shuttle(&case, shuttle::scheduler::PctScheduler::new_from_seed(sseed, depth, schedules), opts);
+    }
     if rng.chance(1, 2) {
         let depth = 1 + rng.usize(5);
         run_shuttle(&case, shuttle::scheduler::PctScheduler::new_from_seed(sseed, depth, opts.schedules), opts)
@@ -1656,7 +1716,9 @@ fn warm_up(opts: &Opts) {
 #[cfg(not(feature = "shuttle"))]
 fn run_case(case: Arc<Case>, opts: &Opts) -> Vec<(Outcome, Option<String>)> {
     let mut v = Vec::new();
-    for _ in 0..opts.reps.max(1) {
+    // wide cases are repeated (the timing differs from run to run): a quarter of the shuttle budget
+    let reps = if case.is_wide() { opts.reps.max(opts.wide_schedules / 4) } else { opts.reps.max(1) };
+    for _ in 0..reps {
         let (tx, rx) = std::sync::mpsc::channel();
         let c = case.clone();
         std::thread::Builder::new()
@@ -1752,11 +1814,12 @@ fn write_replay(case: &Case, o: &Outcome, schedule: &Option<String>, opts: &Opts
     let _ = std::fs::create_dir_all(&opts.replay_dir);
     let path = format!("{}/{}-{}-{}-{}.replay", opts.replay_dir, case.scenario, MODE, opts.seed, case.index);
     let mut s = format!(
-        "scenario={}\nmode={MODE}\nseed={}\ncase={}\ncase_seed={}\n--- schedule\n{}\n",
+        "scenario={}\nmode={MODE}\nseed={}\ncase={}\ncase_seed={}\ngen={}\n--- schedule\n{}\n",
         case.scenario,
         opts.seed,
         case.index,
         case.case_seed,
+        gen_version(),
         schedule.as_deref().unwrap_or("-")
     );
     s.push_str(&case.describe());
@@ -1954,17 +2017,20 @@ fn main() {
         eprintln!("scenario {scenario} unwinds past salsa locks and runs in --mode threads only (DESIGN §2.5a)");
         std::process::exit(2);
     }
+    let cases = args.num("--cases", 100) as usize;
     let mut opts = Opts {
         replay_dir: args.get("--replay-dir").unwrap_or("/verif/work/conc-replays").to_string(),
         trace_out: args.get("--trace-out").map(str::to_string),
         timeout_ms: args.num("--timeout-ms", 10_000),
         schedules: args.num("--schedules", 1) as usize,
+        wide_schedules: args.num("--wide-schedules", if cases <= 1000 { 32 } else { 8 }) as usize,
         reps: args.num("--reps", 1) as usize,
         seed: args.num("--seed", std::env::var("VERIF_SEED").ok().and_then(|s| s.parse().ok()).unwrap_or(1)),
     };
-    let cases = args.num("--cases", 100) as usize;
     STRICT.store(args.flag("--strict"), Ordering::Relaxed);
     FB_ACROSS_REVISIONS.store(args.flag("--fb-across-revisions"), Ordering::Relaxed);
+    // `--gen 1`: the case generators as they were before version 2 (see `GEN_VERSION`)
+    GEN_VERSION.store(args.num("--gen", GEN_VERSION_CURRENT as u64) as u32, Ordering::Relaxed);
 
     // expected panics (cycle panics, injected panics) stay quiet; the message is kept for reports
     let default_hook = std::panic::take_hook();
@@ -1996,6 +2062,8 @@ fn main() {
         let cseed: u64 = field("case_seed").and_then(|s| s.parse().ok()).expect("case_seed=");
         let index: usize = field("case").and_then(|s| s.parse().ok()).unwrap_or(0);
         opts.seed = field("seed").and_then(|s| s.parse().ok()).unwrap_or(opts.seed);
+        // replay files written before the generator versions existed have no `gen=` line
+        GEN_VERSION.store(field("gen").and_then(|s| s.parse().ok()).unwrap_or(1), Ordering::Relaxed);
         let case = gen_case(&scen, index, cseed);
         let want_prog = text.split("--- program\n").nth(1).and_then(|r| r.split("--- inputs").next()).unwrap_or("");
         if want_prog != case.prog.to_text() {
